@@ -162,7 +162,7 @@ def execute(scenarios, binary):
             crashes.append({"scenario": todo[idx], "output": out[-3000:], "rc": rc,
                             "partial": [l for l in got if l["tr"] == prog]})
             todo = todo[idx + 1:]
-            if rounds > 50:
+            if rounds > 400:
                 raise vlib.Inconclusive("too many driver crashes")
         return lines, crashes
 
@@ -253,7 +253,12 @@ def run(prop, tier, replay=None):
     # means the scenario could not be judged.
     if prop == "C13":
         for c in list(crashes):
-            if "blocked goroutines remain" in c["output"] or "deadlock: main bubble goroutine has exited" in c["output"]:
+            if "HARNESS: session" in c["output"] and "did not end" in c["output"]:
+                crashes.remove(c)
+                violations.append({"sig": "C13/not-ended-after-shutdown/run-never-returns",
+                                   "what": "run() did not return within 2 s (virtual) after the context was cancelled in %s" % c["scenario"]["id"],
+                                   "replay": {"scenario": c["scenario"], "output": c["output"][-1500:], "trace": c["partial"]}})
+            elif "blocked goroutines remain" in c["output"] or "deadlock: main bubble goroutine has exited" in c["output"]:
                 crashes.remove(c)
                 violations.append({"sig": "C13/goroutines-leaked/blocked-at-session-end",
                                    "what": "session goroutines still blocked after run() returned in %s" % c["scenario"]["id"],
